@@ -1703,7 +1703,12 @@ def b_int(eng, v, base=10):
             return z3.StrToInt(v)
         raise Unsupported("int(symbolic str, %r)" % base)
     if is_sym(v): return v
-    return int(v, base) if isinstance(v, str) else int(v)
+    try:
+        return int(v, base) if isinstance(v, str) else int(v)
+    except (ValueError, TypeError, OverflowError) as e:
+        if isinstance(v, (str, int, float, bytes, bool)) or v is None:       # concrete operand: this IS what CPython does
+            raise PyRaise(Exc(type(e).__name__))
+        raise
 
 class SymBits:
     """a str built from '0'/'1' characters some of which are symbolic bits (list of int | SymDigit).
